@@ -33,6 +33,16 @@ CLAIMED.update({
                      'codec-internal heap state is covered only through ownership of its container.', ref='5 (C12)'),
 })
 
+CLAIMED.update({
+    'C13': dict(cat='other', tech='allocation-size provenance, object conservation laws, owned-field must-pass rule, sibling init/free agreement on LLVM IR',
+                text='Every run-time allocation has a size drawn only from constants, the level, the I/O granularities, '
+                     'slot counters (shown affine in the worker count) or an encoder-reported size; every object class '
+                     '(blocks, encoders, decoders, I/O buffers, scan tasks) is conserved against the queue that holds it on '
+                     'every path of every task, callback and I/O loop; the unord_blk two-party protocol is run before every '
+                     'free of a retrieve job; decoder_free releases what decoder_init allocates; token-less queues are '
+                     'drained when parsing ends. Does not measure resident memory.', ref='5 (C13)'),
+})
+
 NA = {
     'C01': 'round-trip equality is a numerical fact about RLE/BWT/MTF/Huffman and its inverse over all byte strings; '
            'no sound static argument in reach bounds it (DESIGN.md section 6); its shape-level fragments are decided '
